@@ -366,10 +366,16 @@ def part_c_listing(k, plan, exe, root):
             open(p, 'w').write('x' * r.randint(0, 20))
         elif t < 0.8:
             os.mkdir(p)
-        elif t < 0.95:
+        elif t < 0.9:
             os.symlink('target%d' % i, p)
-        else:
+        elif t < 0.94:
             os.mkfifo(p)
+        else:
+            # device nodes (never opened): a block and a character device, when this user may create them
+            try:
+                os.mknod(p, (stat.S_IFBLK if i % 2 else stat.S_IFCHR) | 0o600, os.makedev(7, 100 + i % 50) if i % 2 else os.makedev(1, 3))
+            except OSError:
+                os.mkfifo(p)
     g = wasih.Guest(plan, ARENA)
     g.instantiate(preopens=[d])
     g.poke(0x100, b'dir')
@@ -396,7 +402,7 @@ def part_c_listing(k, plan, exe, root):
     expected = {}
     for nm in os.listdir(T):
         st = os.lstat(os.path.join(T, nm))
-        ty = 3 if stat.S_ISDIR(st.st_mode) else 4 if stat.S_ISREG(st.st_mode) else 7 if stat.S_ISLNK(st.st_mode) else 0
+        ty = 3 if stat.S_ISDIR(st.st_mode) else 4 if stat.S_ISREG(st.st_mode) else 7 if stat.S_ISLNK(st.st_mode) else 1 if stat.S_ISBLK(st.st_mode) else 2 if stat.S_ISCHR(st.st_mode) else 0
         expected[nm.encode()] = (st.st_ino, ty)
     expected[b'.'] = (os.lstat(T).st_ino, 3)
     expected[b'..'] = (os.lstat(d).st_ino, 3)
